@@ -103,3 +103,16 @@ def dvalid(n: "Node") -> bool:
 def fvalid(c: "list[Node]") -> bool:
     """every node of the list is deeply valid"""
     return all_(0, len(c), lambda j: dvalid(c[j]))
+
+
+
+@abstract
+def prep_valid(s: "Slice", doc: "Node", pos: int) -> bool:
+    """the slice content wrapped in copies of the ancestors of the insertion point pos of doc (what
+    prepare_slice_for_replace builds) is a deeply valid tree"""
+    from prosemirror.model.replace import prepare_slice_for_replace
+
+    try:
+        return dvalid(prepare_slice_for_replace(s, doc.resolve(pos))["start"].node(0))
+    except Exception:  # noqa: BLE001
+        return False
